@@ -16,19 +16,24 @@ Definition w_cut_stream : list xop :=
 Definition w_cut_count : list xop :=
   [Plain (StreamFrame 10 256 0 []); WriteCut 0 []; Plain (StreamFrame 10 512 0 [])].
 
-Lemma cut_pass_tolerates :
+Lemma cut_pass_tolerates : RAISE_BEFORE_START_FRAME = true ->
   tolerated (conn_init false 3000 2000 0) (peer_init 3000 2000) w_cut_data = true /\
   tolerated (conn_init false 1000 4000 0) (peer_init 1000 4000) w_cut_stream = true /\
   tolerated (conn_init false 1000 4000 0) (peer_init 1000 4000) w_cut_count = true.
-Proof. repeat split; vm_compute; reflexivity. Qed.
+Proof. intros Flag. split; [|split]; vm_compute; first [reflexivity | discriminate Flag]. Qed.
 
-Lemma over_advertised_refuted : exists cl msd md ops,
+(* in a tree where the value is assigned only after start_frame() returned the premise is false (the flag is probed) *)
+Lemma over_advertised_refuted : RAISE_BEFORE_START_FRAME = true -> exists cl msd md ops,
   0 <= msd /\ 0 <= md /\ tolerated (conn_init cl msd md 0) (peer_init msd md) ops = true.
-Proof. exists false, 3000, 2000, w_cut_data. split; [lia|split; [lia|vm_compute; reflexivity]]. Qed.
+Proof.
+  intros Flag. exists false, 3000, 2000, w_cut_data. split; [lia|split; [lia|]].
+  vm_compute; first [reflexivity | discriminate Flag].
+Qed.
+
 
 (* what the witness looks like step by step, and the two controls: a complete pass advertises 4000 (the same frame is
    then within the ledger), no pass at all keeps 2000 in force (the same frame closes with FLOW_CONTROL_ERROR) *)
-Example cut_witness_detail :
+Example cut_witness_detail : RAISE_BEFORE_START_FRAME = true ->
   let c0 := conn_init false 3000 2000 0 in
   let c1 := snd (xrun c0 [Plain (StreamFrame 10 0 0 (zeros 1001)); WriteCut 0 []]) in
   fst (xrun c0 [Plain (StreamFrame 10 0 0 (zeros 1001)); WriteCut 0 []]) = [OOk (RData (zeros 1001) false); OWrote []] /\
@@ -39,7 +44,7 @@ Example cut_witness_detail :
     [Plain (StreamFrame 10 0 0 (zeros 1001)); Plain Write; Plain (StreamFrame 14 0 1001 (zeros 1500))] = false /\
   fst (xrun c0 [Plain (StreamFrame 10 0 0 (zeros 1001)); Plain (StreamFrame 14 0 1001 (zeros 1500))]) =
     [OOk (RData (zeros 1001) false); OErr E_FLOW_CONTROL_ERROR 14].
-Proof. cbv zeta. repeat split; vm_compute; reflexivity. Qed.
+Proof. intros Flag. cbv zeta. split; [|split; [|split; [|split; [|split]]]]; vm_compute; first [reflexivity | discriminate Flag]. Qed.
 
 (* an unlimited budget and an empty keep list give the plain write pass (concrete state with every kind of pending frame) *)
 Example write_b_unlimited_is_write :
